@@ -30,7 +30,7 @@ def build(profile='release', features=()):
         lk = os.path.join(BUILD, 'Cargo.lock')
         if not os.path.exists(lk):
             import shutil; shutil.copy(os.path.join(NATDIFF, 'Cargo.lock'), lk)
-        env = dict(os.environ); env['CARGO_NET_OFFLINE'] = 'true'; env['CARGO_TARGET_DIR'] = TARGET; env['RUSTFLAGS'] = '--cfg slotted_egraphs_verif'; env['VERIF_DIR'] = dump.VERIF
+        env = dict(os.environ); env['CARGO_NET_OFFLINE'] = 'true'; env['CARGO_TARGET_DIR'] = TARGET; env['RUSTFLAGS'] = '--cfg slotted_egraphs_verif' + (' --cfg natdiff_explanations' if 'explanations' in features else ''); env['VERIF_DIR'] = dump.VERIF
         cmd = ['cargo', 'build', '--offline', '--quiet'] + (['--release'] if profile == 'release' else [])
         p = subprocess.run(cmd, cwd=BUILD, env=env, stdout=subprocess.PIPE, stderr=subprocess.PIPE)
         if p.returncode != 0:
@@ -54,6 +54,8 @@ def op_line(op):
     if op[0] == 'ematch': return 'ematch ' + show_pat(op[1])
     if op[0] == 'mmatch': return 'mmatch ' + ' ; '.join('%s | %s' % (v, show_pat(p)) for v, p in op[1])
     if op[0] == 'extract': return 'extract %s %s' % (op[2], show_term(op[1]))
+    if op[0] == 'union' and len(op) > 3: return 'union %s %s | %s' % (show_term(op[1]), show_term(op[2]), op[3])
+    if op[0] == 'explain': return 'explain %s %s' % (show_term(op[1]), show_term(op[2]))
     if op[0] == 'rewrite': return 'rewrite ' + ' ; '.join(('%s | %s | %s' % (r[1], show_pat(r[2]), show_pat(r[3]))) + (' | %s %d' % (r[4], r[5]) if r[0] == 'rule_if' else '') for r in op[1])
     return op[0] + ' ' + ' '.join(show_term(x) if isinstance(x, (tuple, list)) else str(x) for x in op[1:])
 
@@ -73,16 +75,19 @@ def run_cases(text, profile='release', timeout=600, features=()):
         if 'case' in r: out[r['case']] = r
     return out
 
-_CMP_KEYS = ('eq', 'live', 'nodes', 'progress', 'classes', 'union_ret', 'readd', 'probe', 'ematch', 'rewrite_ret', 'extract', 'mmatch')
+_CMP_KEYS = ('explain_summary', 'eq', 'live', 'nodes', 'progress', 'classes', 'union_ret', 'readd', 'probe', 'ematch', 'rewrite_ret', 'extract', 'mmatch')
 def _norm_step(s):
     """class ids are compared up to renaming (which id survives a merge may depend on the hash iteration order of the worklist,
     which the native build and the model need not share): ids -> index of the first handle in that class"""
     d = {k: s.get(k) for k in _CMP_KEYS if k in s}
+    if s.get('explain'):
+        from . import proofcheck
+        d['explain_summary'] = proofcheck.shape_summary(s['explain'])
     ids = [None if c is None else c['id'] for c in s['canon']]
     rank = {}
     for i in ids:
         if i is not None and i not in rank: rank[i] = len(rank)
-    d['canon'] = [None if c is None else {'class': rank[c['id']], 'idem': c['idem'], 'nslots': c['nslots'], 'vals': c['vals'], 'hvals': c['hvals']} for c in s['canon']]
+    d['canon'] = [None if c is None else {'class': rank[c['id']], 'idem': c['idem'], 'nslots': c['nslots'], 'vals': c['vals'], 'hvals': c['hvals'], 'hdata': c.get('hdata')} for c in s['canon']]
     cls = s.get('classes') or {}
     d['classes'] = sorted(json.dumps({k: v for k, v in c.items() if k in ('nslots', 'gcount', 'data', 'data_fix')}, sort_keys=True) for c in cls.values())
     d['handle_classes'] = [None if c is None else {k: v for k, v in cls.get(str(c['id']), {}).items() if k in ('nslots', 'gcount', 'data', 'data_fix')} for c in s['canon']]
